@@ -9502,6 +9502,518 @@ let obs_msgsig = function
     (Z.of_nat (length s.sg_hdrsig)) :: []))))))) (map n2z s.sg_hdrsig)
 | None -> (Zneg (XI (XI (XI (XO (XO (XI (XI (XI (XI XH)))))))))) :: []
 
+(** val sigIPStartF : n **)
+
+let sigIPStartF =
+  Npos XH
+
+(** val sigIPEndF : n **)
+
+let sigIPEndF =
+  Npos (XO XH)
+
+(** val sigIPMiddleF : n **)
+
+let sigIPMiddleF =
+  Npos (XO (XO XH))
+
+(** val sigHexEncF : n **)
+
+let sigHexEncF =
+  Npos (XO (XO (XO (XO (XO (XO (XO (XO (XO (XO (XO (XO (XO XH)))))))))))))
+
+(** val sigB64EncF : n **)
+
+let sigB64EncF =
+  Npos (XO (XO (XO (XO (XO (XO (XO (XO (XO (XO (XO (XO (XO (XO
+    XH))))))))))))))
+
+(** val sigDigBlocksF : n **)
+
+let sigDigBlocksF =
+  Npos (XO (XO (XO (XO (XO (XO (XO (XO (XO (XO (XO (XO (XO (XO (XO
+    XH)))))))))))))))
+
+(** val res_flag : byte -> n **)
+
+let res_flag c =
+  if N.eqb c (Npos (XO (XO (XO (XO (XO (XO XH)))))))
+  then Npos (XO (XO (XO XH)))
+  else if N.eqb c (Npos (XO (XI (XI (XI (XO XH))))))
+       then Npos (XO (XO (XO (XO XH))))
+       else if N.eqb c (Npos (XO (XI (XO (XI (XI XH))))))
+            then Npos (XO (XO (XO (XO (XO XH)))))
+            else if N.eqb c (Npos (XI (XO (XI (XI (XO XH))))))
+                 then Npos (XO (XO (XO (XO (XO (XO XH))))))
+                 else if N.eqb c (Npos (XI (XI (XI (XI (XI (XO XH)))))))
+                      then Npos (XO (XO (XO (XO (XO (XO (XO (XO (XO (XO (XO
+                             XH)))))))))))
+                      else if N.eqb c (Npos (XO (XI (XO (XI (XO XH))))))
+                           then Npos (XO (XO (XO (XO (XO (XO (XO XH)))))))
+                           else if N.eqb c (Npos (XI (XI (XO (XI (XO XH))))))
+                                then Npos (XO (XO (XO (XO (XO (XO (XO (XO (XO
+                                       XH)))))))))
+                                else if N.eqb c (Npos (XI (XI (XI (XI (XO
+                                          XH))))))
+                                     then Npos (XO (XO (XO (XO (XO (XO (XO
+                                            (XO XH))))))))
+                                     else if N.eqb c (Npos (XI (XO (XI (XI
+                                               (XI XH))))))
+                                          then Npos (XO (XO (XO (XO (XO (XO
+                                                 (XO (XO (XO (XO XH))))))))))
+                                          else if N.eqb c (Npos (XO (XO (XI
+                                                    (XI (XI (XI XH)))))))
+                                               then Npos (XO (XO (XO (XO (XO
+                                                      (XO (XO (XO (XO (XO (XO
+                                                      (XO XH))))))))))))
+                                               else N0
+
+type scs = { c_sig : n; c_sep : n; c_sepno : n; c_hexm : n; c_hexc : 
+             n; c_hexb : n; c_b64 : bool; c_hex : bool; c_dec : bool;
+             c_lo : bool; c_up : bool; c_skip : n }
+
+(** val scs0 : scs **)
+
+let scs0 =
+  { c_sig = N0; c_sep = N0; c_sepno = N0; c_hexm = N0; c_hexc = N0; c_hexb =
+    N0; c_b64 = true; c_hex = true; c_dec = true; c_lo = false; c_up = false;
+    c_skip = N0 }
+
+(** val close_block : scs -> scs **)
+
+let close_block st =
+  if N.ltb N0 st.c_hexc
+  then set (fun s -> s.c_hexc) (fun f ->
+         let n0 = fun r -> f r.c_hexc in
+         (fun x -> { c_sig = x.c_sig; c_sep = x.c_sep; c_sepno = x.c_sepno;
+         c_hexm = x.c_hexm; c_hexc = (n0 x); c_hexb = x.c_hexb; c_b64 =
+         x.c_b64; c_hex = x.c_hex; c_dec = x.c_dec; c_lo = x.c_lo; c_up =
+         x.c_up; c_skip = x.c_skip })) (fun _ -> N0)
+         (set (fun s -> s.c_hexm) (fun f ->
+           let n0 = fun r -> f r.c_hexm in
+           (fun x -> { c_sig = x.c_sig; c_sep = x.c_sep; c_sepno = x.c_sepno;
+           c_hexm = (n0 x); c_hexc = x.c_hexc; c_hexb = x.c_hexb; c_b64 =
+           x.c_b64; c_hex = x.c_hex; c_dec = x.c_dec; c_lo = x.c_lo; c_up =
+           x.c_up; c_skip = x.c_skip })) (fun _ -> N.max st.c_hexm st.c_hexc)
+           (set (fun s -> s.c_hexb) (fun f ->
+             let n0 = fun r -> f r.c_hexb in
+             (fun x -> { c_sig = x.c_sig; c_sep = x.c_sep; c_sepno =
+             x.c_sepno; c_hexm = x.c_hexm; c_hexc = x.c_hexc; c_hexb =
+             (n0 x); c_b64 = x.c_b64; c_hex = x.c_hex; c_dec = x.c_dec;
+             c_lo = x.c_lo; c_up = x.c_up; c_skip = x.c_skip })) (fun _ ->
+             N.add st.c_hexb (Npos XH)) st))
+  else st
+
+(** val is_hexl : byte -> bool **)
+
+let is_hexl c =
+  (||)
+    ((&&) (N.leb (Npos (XI (XO (XO (XO (XO (XO XH))))))) c)
+      (N.leb c (Npos (XO (XI (XI (XO (XO (XO XH)))))))))
+    ((&&) (N.leb (Npos (XI (XO (XO (XO (XO (XI XH))))))) c)
+      (N.leb c (Npos (XO (XI (XI (XO (XO (XI XH)))))))))
+
+(** val b64r : byte -> bool **)
+
+let b64r c =
+  (||)
+    ((&&) (N.leb (Npos (XI (XO (XI (XO (XO (XO XH))))))) c)
+      (N.leb c (Npos (XO (XI (XO (XI (XI (XO XH)))))))))
+    ((&&) (N.leb (Npos (XI (XO (XI (XO (XO (XI XH))))))) c)
+      (N.leb c (Npos (XO (XI (XO (XI (XI (XI XH)))))))))
+
+(** val scs_step : n -> n -> n -> n -> byte -> bool -> scs -> scs **)
+
+let scs_step n0 so sl i c nxeq st =
+  if (&&) (N.leb so i) (N.ltb i (N.add so sl))
+  then st
+  else let st0 = if N.eqb i (N.add so sl) then close_block st else st in
+       let f = res_flag c in
+       if negb (N.eqb f N0)
+       then let st1 =
+              set (fun s -> s.c_sig) (fun f0 ->
+                let n1 = fun r -> f0 r.c_sig in
+                (fun x -> { c_sig = (n1 x); c_sep = x.c_sep; c_sepno =
+                x.c_sepno; c_hexm = x.c_hexm; c_hexc = x.c_hexc; c_hexb =
+                x.c_hexb; c_b64 = x.c_b64; c_hex = x.c_hex; c_dec = x.c_dec;
+                c_lo = x.c_lo; c_up = x.c_up; c_skip = x.c_skip })) (fun _ ->
+                N.coq_lor st0.c_sig f) st0
+            in
+            if (||) (N.eqb sl N0)
+                 ((&&) (negb (N.eqb i (N.add so sl)))
+                   (negb ((&&) (N.ltb N0 so) (N.eqb i (N.sub so (Npos XH))))))
+            then let b64 =
+                   if (&&) st1.c_b64
+                        (negb
+                          ((||)
+                            ((||)
+                              (N.eqb c (Npos (XI (XI (XO (XI (XO XH)))))))
+                              (N.eqb c (Npos (XI (XI (XI (XI (XO XH))))))))
+                            (N.eqb c (Npos (XI (XO (XI (XI (XI XH)))))))))
+                   then false
+                   else if (&&) st1.c_b64
+                             (N.eqb c (Npos (XI (XO (XI (XI (XI XH)))))))
+                        then (||) (N.eqb i (N.sub n0 (Npos XH)))
+                               ((&&)
+                                 ((&&) (N.leb (Npos (XO XH)) n0)
+                                   (N.eqb i (N.sub n0 (Npos (XO XH))))) nxeq)
+                        else st1.c_b64
+                 in
+                 let st2 =
+                   set (fun s -> s.c_b64) (fun f0 ->
+                     let b = fun r -> f0 r.c_b64 in
+                     (fun x -> { c_sig = x.c_sig; c_sep = x.c_sep; c_sepno =
+                     x.c_sepno; c_hexm = x.c_hexm; c_hexc = x.c_hexc;
+                     c_hexb = x.c_hexb; c_b64 = (b x); c_hex = x.c_hex;
+                     c_dec = x.c_dec; c_lo = x.c_lo; c_up = x.c_up; c_skip =
+                     x.c_skip })) (fun _ -> b64) st1
+                 in
+                 let st3 =
+                   if N.eqb st2.c_sep N0
+                   then set (fun s -> s.c_sepno) (fun f0 ->
+                          let n1 = fun r -> f0 r.c_sepno in
+                          (fun x -> { c_sig = x.c_sig; c_sep = x.c_sep;
+                          c_sepno = (n1 x); c_hexm = x.c_hexm; c_hexc =
+                          x.c_hexc; c_hexb = x.c_hexb; c_b64 = x.c_b64;
+                          c_hex = x.c_hex; c_dec = x.c_dec; c_lo = x.c_lo;
+                          c_up = x.c_up; c_skip = x.c_skip })) (fun _ ->
+                          N.add st2.c_sepno (Npos XH))
+                          (set (fun s -> s.c_sep) (fun f0 ->
+                            let n1 = fun r -> f0 r.c_sep in
+                            (fun x -> { c_sig = x.c_sig; c_sep = (n1 x);
+                            c_sepno = x.c_sepno; c_hexm = x.c_hexm; c_hexc =
+                            x.c_hexc; c_hexb = x.c_hexb; c_b64 = x.c_b64;
+                            c_hex = x.c_hex; c_dec = x.c_dec; c_lo = x.c_lo;
+                            c_up = x.c_up; c_skip = x.c_skip })) (fun _ -> c)
+                            st2)
+                   else if N.eqb st2.c_sep c
+                        then set (fun s -> s.c_sepno) (fun f0 ->
+                               let n1 = fun r -> f0 r.c_sepno in
+                               (fun x -> { c_sig = x.c_sig; c_sep = x.c_sep;
+                               c_sepno = (n1 x); c_hexm = x.c_hexm; c_hexc =
+                               x.c_hexc; c_hexb = x.c_hexb; c_b64 = x.c_b64;
+                               c_hex = x.c_hex; c_dec = x.c_dec; c_lo =
+                               x.c_lo; c_up = x.c_up; c_skip = x.c_skip }))
+                               (fun _ -> N.add st2.c_sepno (Npos XH)) st2
+                        else st2
+                 in
+                 let st4 =
+                   if (&&) (N.ltb N0 i) (negb (N.eqb st3.c_sep c))
+                   then set (fun s -> s.c_hex) (fun f0 ->
+                          let b = fun r -> f0 r.c_hex in
+                          (fun x -> { c_sig = x.c_sig; c_sep = x.c_sep;
+                          c_sepno = x.c_sepno; c_hexm = x.c_hexm; c_hexc =
+                          x.c_hexc; c_hexb = x.c_hexb; c_b64 = x.c_b64;
+                          c_hex = (b x); c_dec = x.c_dec; c_lo = x.c_lo;
+                          c_up = x.c_up; c_skip = x.c_skip })) (fun _ ->
+                          false)
+                          (set (fun s -> s.c_dec) (fun f0 ->
+                            let b = fun r -> f0 r.c_dec in
+                            (fun x -> { c_sig = x.c_sig; c_sep = x.c_sep;
+                            c_sepno = x.c_sepno; c_hexm = x.c_hexm; c_hexc =
+                            x.c_hexc; c_hexb = x.c_hexb; c_b64 = x.c_b64;
+                            c_hex = x.c_hex; c_dec = (b x); c_lo = x.c_lo;
+                            c_up = x.c_up; c_skip = x.c_skip })) (fun _ ->
+                            false) st3)
+                   else st3
+                 in
+                 close_block st4
+            else let st2 =
+                   if N.eqb i (N.add so sl) then close_block st1 else st1
+                 in
+                 set (fun s -> s.c_skip) (fun f0 ->
+                   let n1 = fun r -> f0 r.c_skip in
+                   (fun x -> { c_sig = x.c_sig; c_sep = x.c_sep; c_sepno =
+                   x.c_sepno; c_hexm = x.c_hexm; c_hexc = x.c_hexc; c_hexb =
+                   x.c_hexb; c_b64 = x.c_b64; c_hex = x.c_hex; c_dec =
+                   x.c_dec; c_lo = x.c_lo; c_up = x.c_up; c_skip = (n1 x) }))
+                   (fun _ -> N.add st2.c_skip (Npos XH)) st2
+       else if negb (is_digit c)
+            then let st1 =
+                   set (fun s -> s.c_dec) (fun f0 ->
+                     let b = fun r -> f0 r.c_dec in
+                     (fun x -> { c_sig = x.c_sig; c_sep = x.c_sep; c_sepno =
+                     x.c_sepno; c_hexm = x.c_hexm; c_hexc = x.c_hexc;
+                     c_hexb = x.c_hexb; c_b64 = x.c_b64; c_hex = x.c_hex;
+                     c_dec = (b x); c_lo = x.c_lo; c_up = x.c_up; c_skip =
+                     x.c_skip })) (fun _ -> false) st0
+                 in
+                 let st2 =
+                   if negb (is_hexl c)
+                   then let st2 =
+                          set (fun s -> s.c_hex) (fun f0 ->
+                            let b = fun r -> f0 r.c_hex in
+                            (fun x -> { c_sig = x.c_sig; c_sep = x.c_sep;
+                            c_sepno = x.c_sepno; c_hexm = x.c_hexm; c_hexc =
+                            x.c_hexc; c_hexb = x.c_hexb; c_b64 = x.c_b64;
+                            c_hex = (b x); c_dec = x.c_dec; c_lo = x.c_lo;
+                            c_up = x.c_up; c_skip = x.c_skip })) (fun _ ->
+                            false) st1
+                        in
+                        if negb (b64r c)
+                        then set (fun s -> s.c_b64) (fun f0 ->
+                               let b = fun r -> f0 r.c_b64 in
+                               (fun x -> { c_sig = x.c_sig; c_sep = x.c_sep;
+                               c_sepno = x.c_sepno; c_hexm = x.c_hexm;
+                               c_hexc = x.c_hexc; c_hexb = x.c_hexb; c_b64 =
+                               (b x); c_hex = x.c_hex; c_dec = x.c_dec;
+                               c_lo = x.c_lo; c_up = x.c_up; c_skip =
+                               x.c_skip })) (fun _ -> false) st2
+                        else st2
+                   else set (fun s -> s.c_hexc) (fun f0 ->
+                          let n1 = fun r -> f0 r.c_hexc in
+                          (fun x -> { c_sig = x.c_sig; c_sep = x.c_sep;
+                          c_sepno = x.c_sepno; c_hexm = x.c_hexm; c_hexc =
+                          (n1 x); c_hexb = x.c_hexb; c_b64 = x.c_b64; c_hex =
+                          x.c_hex; c_dec = x.c_dec; c_lo = x.c_lo; c_up =
+                          x.c_up; c_skip = x.c_skip })) (fun _ ->
+                          N.add st1.c_hexc (Npos XH)) st1
+                 in
+                 if is_lower c
+                 then set (fun s -> s.c_lo) (fun f0 ->
+                        let b = fun r -> f0 r.c_lo in
+                        (fun x -> { c_sig = x.c_sig; c_sep = x.c_sep;
+                        c_sepno = x.c_sepno; c_hexm = x.c_hexm; c_hexc =
+                        x.c_hexc; c_hexb = x.c_hexb; c_b64 = x.c_b64; c_hex =
+                        x.c_hex; c_dec = x.c_dec; c_lo = (b x); c_up =
+                        x.c_up; c_skip = x.c_skip })) (fun _ -> true) st2
+                 else if is_upper c
+                      then set (fun s -> s.c_up) (fun f0 ->
+                             let b = fun r -> f0 r.c_up in
+                             (fun x -> { c_sig = x.c_sig; c_sep = x.c_sep;
+                             c_sepno = x.c_sepno; c_hexm = x.c_hexm; c_hexc =
+                             x.c_hexc; c_hexb = x.c_hexb; c_b64 = x.c_b64;
+                             c_hex = x.c_hex; c_dec = x.c_dec; c_lo = x.c_lo;
+                             c_up = (b x); c_skip = x.c_skip })) (fun _ ->
+                             true) st2
+                      else st2
+            else set (fun s -> s.c_hexc) (fun f0 ->
+                   let n1 = fun r -> f0 r.c_hexc in
+                   (fun x -> { c_sig = x.c_sig; c_sep = x.c_sep; c_sepno =
+                   x.c_sepno; c_hexm = x.c_hexm; c_hexc = (n1 x); c_hexb =
+                   x.c_hexb; c_b64 = x.c_b64; c_hex = x.c_hex; c_dec =
+                   x.c_dec; c_lo = x.c_lo; c_up = x.c_up; c_skip = x.c_skip }))
+                   (fun _ -> N.add st0.c_hexc (Npos XH)) st0
+
+(** val scs_loop : n -> n -> n -> n -> byte list -> scs -> scs **)
+
+let rec scs_loop n0 so sl i s st =
+  match s with
+  | [] -> st
+  | c :: s' ->
+    scs_loop n0 so sl (N.add i (Npos XH)) s'
+      (scs_step n0 so sl i c
+        (match s' with
+         | [] -> false
+         | d :: _ -> N.eqb d (Npos (XI (XO (XI (XI (XI XH))))))) st)
+
+(** val str_chars_sig : byte list -> n -> n -> n * n **)
+
+let str_chars_sig s so sl =
+  let n0 = nnat (length s) in
+  let st = close_block (scs_loop n0 so sl N0 s scs0) in
+  let l = N.sub (N.sub (N.sub n0 sl) st.c_skip) st.c_sepno in
+  let sig0 =
+    if N.leb (Npos (XO (XO (XO XH)))) l
+    then if (&&)
+              ((&&) ((||) st.c_dec st.c_hex)
+                ((||)
+                  ((||) (N.eqb st.c_sep N0)
+                    (N.leb (Npos (XO (XO (XO XH)))) st.c_hexm))
+                  ((&&) (N.ltb N0 st.c_hexm)
+                    (N.leb (Npos (XO (XO XH))) st.c_hexb))))
+              (negb ((&&) st.c_lo st.c_up))
+         then N.coq_lor (N.coq_lor st.c_sig sigHexEncF)
+                (if N.eqb st.c_sep N0 then N0 else sigDigBlocksF)
+         else if (&&) st.c_b64 (N.eqb (N.modulo l (Npos (XO (XO XH)))) N0)
+              then N.coq_lor st.c_sig sigB64EncF
+              else st.c_sig
+    else st.c_sig
+  in
+  (sig0, st.c_skip)
+
+(** val str_sig0 : byte list -> n **)
+
+let str_sig0 s =
+  fst (str_chars_sig s N0 N0)
+
+(** val callid_sig_at : bool -> n -> n -> byte list -> n * n **)
+
+let callid_sig_at has io il cid =
+  let n0 = nnat (length cid) in
+  let sig0 =
+    if has
+    then if N.eqb io N0
+         then sigIPStartF
+         else if N.eqb (N.add io il) n0 then sigIPEndF else sigIPMiddleF
+    else N0
+  in
+  let (s, sk) = str_chars_sig cid io il in
+  let clen =
+    N.div (N.add (N.sub (N.sub n0 il) sk) (Npos (XI XH))) (Npos (XO (XO XH)))
+  in
+  ((N.coq_lor sig0 s),
+  (if N.ltb (Npos (XI (XI (XI (XI (XI (XI (XI XH)))))))) clen
+   then Npos (XI (XI (XI (XI (XI (XI (XI XH)))))))
+   else clen))
+
+(** val str_branch : byte list **)
+
+let str_branch =
+  (Npos (XO (XI (XO (XO (XO (XI XH))))))) :: ((Npos (XO (XI (XO (XO (XI (XI
+    XH))))))) :: ((Npos (XI (XO (XO (XO (XO (XI XH))))))) :: ((Npos (XO (XI
+    (XI (XI (XO (XI XH))))))) :: ((Npos (XI (XI (XO (XO (XO (XI
+    XH))))))) :: ((Npos (XO (XO (XO (XI (XO (XI XH))))))) :: [])))))
+
+(** val str_brprefix : byte list **)
+
+let str_brprefix =
+  (Npos (XO (XI (XO (XI (XI (XI XH))))))) :: ((Npos (XI (XO (XO (XI (XI
+    XH)))))) :: ((Npos (XO (XO (XO (XI (XO (XI XH))))))) :: ((Npos (XI (XI
+    (XI (XO (XO (XO XH))))))) :: ((Npos (XO (XO (XI (XO (XI
+    XH)))))) :: ((Npos (XO (XI (XO (XO (XO (XI XH))))))) :: ((Npos (XI (XI
+    (XO (XI (XO (XO XH))))))) :: []))))))
+
+(** val viabr_flags : n **)
+
+let viabr_flags =
+  Npos (XI (XO (XO (XI XH))))
+
+(** val index_of : byte -> byte list -> n -> n option **)
+
+let rec index_of c s i =
+  match s with
+  | [] -> None
+  | d :: s' -> if N.eqb d c then Some i else index_of c s' (N.add i (Npos XH))
+
+(** val viabr_loop : nat -> byte list -> n -> (n * n) option **)
+
+let rec viabr_loop fuel viab offs =
+  match fuel with
+  | O -> Some (N0, N0)
+  | S fuel' ->
+    (match parse_tokparam viabr_flags viab offs tokparam0 with
+     | Done (next, e, p) ->
+       (match e with
+        | EOk ->
+          let isbr =
+            (&&) (N.eqb p.tp_name.pl (Npos (XO (XI XH))))
+              (match bget viab p.tp_name with
+               | Some nm -> eqb_nocase nm str_branch
+               | None -> false)
+          in
+          if (&&) (N.eqb p.tp_name.pl (Npos (XO (XI XH))))
+               (match bget viab p.tp_name with
+                | Some _ -> false
+                | None -> true)
+          then None
+          else if isbr
+               then if N.ltb N0 p.tp_val.pl
+                    then (match bget viab p.tp_val with
+                          | Some val0 ->
+                            if (&&)
+                                 (N.ltb (Npos (XI (XI XH)))
+                                   (nnat (length val0)))
+                                 (eqb_nocase
+                                   (firstn (S (S (S (S (S (S (S O))))))) val0)
+                                   str_brprefix)
+                            then Some
+                                   ((str_sig0
+                                      (skipn (S (S (S (S (S (S (S O)))))))
+                                        val0)),
+                                   (N.sub (nnat (length val0)) (Npos (XI (XI
+                                     XH)))))
+                            else Some ((str_sig0 val0), (nnat (length val0)))
+                          | None -> None)
+                    else Some (N0, N0)
+               else (match e with
+                     | EMoreValues -> viabr_loop fuel' viab next
+                     | _ -> Some (N0, N0))
+        | EEOH ->
+          let isbr =
+            (&&) (N.eqb p.tp_name.pl (Npos (XO (XI XH))))
+              (match bget viab p.tp_name with
+               | Some nm -> eqb_nocase nm str_branch
+               | None -> false)
+          in
+          if (&&) (N.eqb p.tp_name.pl (Npos (XO (XI XH))))
+               (match bget viab p.tp_name with
+                | Some _ -> false
+                | None -> true)
+          then None
+          else if isbr
+               then if N.ltb N0 p.tp_val.pl
+                    then (match bget viab p.tp_val with
+                          | Some val0 ->
+                            if (&&)
+                                 (N.ltb (Npos (XI (XI XH)))
+                                   (nnat (length val0)))
+                                 (eqb_nocase
+                                   (firstn (S (S (S (S (S (S (S O))))))) val0)
+                                   str_brprefix)
+                            then Some
+                                   ((str_sig0
+                                      (skipn (S (S (S (S (S (S (S O)))))))
+                                        val0)),
+                                   (N.sub (nnat (length val0)) (Npos (XI (XI
+                                     XH)))))
+                            else Some ((str_sig0 val0), (nnat (length val0)))
+                          | None -> None)
+                    else Some (N0, N0)
+               else (match e with
+                     | EMoreValues -> viabr_loop fuel' viab next
+                     | _ -> Some (N0, N0))
+        | EMoreValues ->
+          let isbr =
+            (&&) (N.eqb p.tp_name.pl (Npos (XO (XI XH))))
+              (match bget viab p.tp_name with
+               | Some nm -> eqb_nocase nm str_branch
+               | None -> false)
+          in
+          if (&&) (N.eqb p.tp_name.pl (Npos (XO (XI XH))))
+               (match bget viab p.tp_name with
+                | Some _ -> false
+                | None -> true)
+          then None
+          else if isbr
+               then if N.ltb N0 p.tp_val.pl
+                    then (match bget viab p.tp_val with
+                          | Some val0 ->
+                            if (&&)
+                                 (N.ltb (Npos (XI (XI XH)))
+                                   (nnat (length val0)))
+                                 (eqb_nocase
+                                   (firstn (S (S (S (S (S (S (S O))))))) val0)
+                                   str_brprefix)
+                            then Some
+                                   ((str_sig0
+                                      (skipn (S (S (S (S (S (S (S O)))))))
+                                        val0)),
+                                   (N.sub (nnat (length val0)) (Npos (XI (XI
+                                     XH)))))
+                            else Some ((str_sig0 val0), (nnat (length val0)))
+                          | None -> None)
+                    else Some (N0, N0)
+               else (match e with
+                     | EMoreValues -> viabr_loop fuel' viab next
+                     | _ -> Some (N0, N0))
+        | _ -> Some (N0, N0))
+     | _ -> None)
+
+(** val viabr_sig_len : byte list -> (n * n) option **)
+
+let viabr_sig_len viab =
+  match index_of (Npos (XI (XI (XO (XI (XI XH)))))) viab N0 with
+  | Some o -> viabr_loop (S (length viab)) viab (N.add o (Npos XH))
+  | None -> Some (N0, N0)
+
+(** val viabr_sig0 : byte list -> n **)
+
+let viabr_sig0 viab =
+  match viabr_sig_len viab with
+  | Some p -> let (s, _) = p in s
+  | None -> N0
+
 type 's obj = { ob_parse : (n -> byte list -> n -> 's -> 's res);
                 ob_reset : ('s -> 's); ob_obs : ('s -> z list) }
 
@@ -9845,19 +10357,19 @@ let run_msgsig nums buf =
   let ccap = nthz nums (S O) in
   let flags = Z.to_N (nthz nums (S (S O))) in
   let offs = Z.to_N (nthz nums (S (S (S O)))) in
-  let cidsig = Z.to_N (nthz nums (S (S (S (S O))))) in
-  let cidslen = Z.to_N (nthz nums (S (S (S (S (S O)))))) in
-  let fromsig = Z.to_N (nthz nums (S (S (S (S (S (S O))))))) in
-  let viasig = Z.to_N (nthz nums (S (S (S (S (S (S (S O)))))))) in
   let m0 =
     msg_init N0 (repeat hdr0 (cap_of defaultHdrs hcap))
       (repeat pfrom0 (cap_of defaultContacts ccap))
   in
   (match parse_sipmsg flags buf offs m0 with
    | Done (o, e, m) ->
+     let has = negb (Z.eqb (nthz nums (S (S (S (S (S (S (S (S O))))))))) Z0)
+     in
+     let io = Z.to_N (nthz nums (S (S (S (S (S (S (S (S (S O)))))))))) in
+     let il = Z.to_N (nthz nums (S (S (S (S (S (S (S (S (S (S O))))))))))) in
      let r =
-       get_msg_sig (fun _ -> (cidsig, cidslen)) (fun _ -> fromsig) (fun _ ->
-         viasig) m buf
+       get_msg_sig (fun cid -> callid_sig_at has io il cid) str_sig0
+         viabr_sig0 m buf
      in
      app ((n2z o) :: ((n2z (err_code e)) :: []))
        (app (obs_msgsig r)
@@ -9917,6 +10429,23 @@ let entry kind nums strs =
                     | XH -> [])
                  | XO p2 ->
                    (match p2 with
+                    | XI p3 ->
+                      (match p3 with
+                       | XI p4 ->
+                         (match p4 with
+                          | XI p5 ->
+                            (match p5 with
+                             | XH ->
+                               let (sg, l) =
+                                 callid_sig_at
+                                   (negb (Z.eqb (nthz nums O) Z0))
+                                   (Z.to_N (nthz nums (S O)))
+                                   (Z.to_N (nthz nums (S (S O)))) s0
+                               in
+                               (n2z sg) :: ((n2z l) :: [])
+                             | _ -> [])
+                          | _ -> [])
+                       | _ -> [])
                     | XO p3 ->
                       (match p3 with
                        | XI p4 ->
@@ -9930,7 +10459,7 @@ let entry kind nums strs =
                              | _ -> [])
                           | _ -> [])
                        | _ -> [])
-                    | _ -> [])
+                    | XH -> [])
                  | XH -> [])
               | XO p1 ->
                 (match p1 with
@@ -9958,6 +10487,16 @@ let entry kind nums strs =
                     | _ -> [])
                  | XO p2 ->
                    (match p2 with
+                    | XI p3 ->
+                      (match p3 with
+                       | XI p4 ->
+                         (match p4 with
+                          | XI p5 ->
+                            (match p5 with
+                             | XH -> (n2z (str_sig0 s0)) :: []
+                             | _ -> [])
+                          | _ -> [])
+                       | _ -> [])
                     | XO p3 ->
                       (match p3 with
                        | XI p4 ->
@@ -9979,7 +10518,7 @@ let entry kind nums strs =
                              | _ -> [])
                           | _ -> [])
                        | _ -> [])
-                    | _ -> [])
+                    | XH -> [])
                  | XH -> [])
               | XH -> [])
            | XO p0 ->
@@ -10011,6 +10550,21 @@ let entry kind nums strs =
                     | XH -> [])
                  | XO p2 ->
                    (match p2 with
+                    | XI p3 ->
+                      (match p3 with
+                       | XI p4 ->
+                         (match p4 with
+                          | XI p5 ->
+                            (match p5 with
+                             | XH ->
+                               (match viabr_sig_len s0 with
+                                | Some p6 ->
+                                  let (sg, l) = p6 in
+                                  (n2z sg) :: ((n2z l) :: [])
+                                | None -> zPANIC :: [])
+                             | _ -> [])
+                          | _ -> [])
+                       | _ -> [])
                     | XO p3 ->
                       (match p3 with
                        | XI p4 ->
@@ -10024,7 +10578,7 @@ let entry kind nums strs =
                              | _ -> [])
                           | _ -> [])
                        | _ -> [])
-                    | _ -> [])
+                    | XH -> [])
                  | XH -> [])
               | XO p1 ->
                 (match p1 with
